@@ -13,6 +13,34 @@ from hv.engine_harness import Harness, program_lines
 from hv.props.c01 import C01, SCALES, gen_program
 
 
+def gen_value(rng: random.Random):
+    """what a future is resolved with: the engine must hand it to the waiting process unchanged, by *sending*
+    it — small ints, falsy things (0, None, False, "", 0.0, (), [], {}), exception instances and classes used
+    as plain values ("result or error object"), tuples that look like an any_of result, lists"""
+    r = rng.random()
+    if r < 0.4:
+        return rng.randrange(100)
+    if r < 0.5:
+        return 0
+    if r < 0.58:
+        return "none"
+    if r < 0.76:
+        return f"a0.{rng.randrange(8)}"
+    if r < 0.81:
+        return f"a1.{rng.randrange(2)}"
+    if r < 0.85:
+        return rng.choice(["a2.0", "a2.3"])
+    if r < 0.88:
+        return rng.choice(["a3.0", "a3.1"])
+    if r < 0.91:
+        return f"a4.{rng.randrange(4)}"
+    if r < 0.94:
+        return f"a5.{rng.randrange(3)}"
+    if r < 0.97:
+        return f"p({rng.randrange(3)},{rng.choice(['n5', 'none', 'a0.1'])})"
+    return rng.choice(["l[]", "l[n1,a0.2]", "l[none]"])
+
+
 def gen_future_program(rng: random.Random):
     prog = gen_program(rng, crash=False)
     sc = SCALES["small" if max(prog["times"]) < 10**6 else "large"]
@@ -69,8 +97,12 @@ def gen_future_program(rng: random.Random):
         if rng.random() < 0.5:
             last.append(["E", rng.randrange(ents), 60, rng.choice(sc["nd"]), False, 0])
         if rng.random() < 0.3:
-            last.append(["R", rng.randrange(nplain), rng.randrange(100)])
+            last.append(["R", rng.randrange(nplain), gen_value(rng)])
         segs.append({"acts": last, "term": ["Z"]})
+        if rng.random() < 0.35:
+            # the process registers a completion hook on its own triggering event while it is in flight
+            # (the event is the only one of its kind, so the kind handle is the event itself)
+            rng.choice(segs)["acts"].append(["AH", k, rng.choice([5, 6])])
         prog["defs"].append({"ent": e, "kind": k, "gen": True, "segs": segs})
         prog["pre"].append({"tgt": e, "kind": k, "time": rng.choice(sc["times"]), "daemon": rng.random() < 0.1,
                             "hook": rng.choice([0, 0, 4]), "cancelled": False})
@@ -82,7 +114,11 @@ def gen_future_program(rng: random.Random):
         for si in range(nseg):
             acts = []
             for _ in range(rng.randint(1, 3)):
-                acts.append(["R", rng.randrange(nplain), rng.randrange(100)])
+                acts.append(["R", rng.randrange(nplain), gen_value(rng)])
+            if rng.random() < 0.3:
+                # another entity holding the waiter's triggering event adds a hook to it: before the waiter
+                # starts, while it is parked / sleeping, or after it is done
+                acts.insert(rng.randrange(len(acts) + 1), ["AH", rng.choice(kinds_w), rng.choice([6, 7])])
             if rng.random() < 0.3:
                 acts.insert(rng.randrange(len(acts) + 1), ["E", rng.randrange(ents), 61, rng.choice(sc["nd"]), False, 0])
             term = ["Z"] if si == nseg - 1 else ["Y", rng.choice(sc["fd"])]
@@ -126,6 +162,11 @@ class C02(C01):
         "HappyModel.C01.finishing_step_runs_hooks_once",
         "HappyModel.C01.hooks_at_most_once",
         "HappyModel.C01.hooks_at_most_once_from",
+        "HappyModel.C01.addHook_in_flight",
+        "HappyModel.C01.addHook_before_delivery",
+        "HappyModel.C01.inflight_hook_runs_at_finish",
+        "HappyModel.C01.inflight_hooks_cleared",
+        "HappyModel.C01.resumed_value_logged",
         "HappyModel.C01.delivered_sorted",
         "HappyModel.C01.at_most_once",
         "HappyModel.C01.pop_verdict",
@@ -149,7 +190,10 @@ class C02(C01):
     thorough_cases = 25000
     rule = ("C01 programs (no crash actions) plus 1–3 waiter processes that park on plain futures or on any_of/all_of trees of depth ≤3 "
             "(some after a delay, some yielding the same future twice) and 1–4 resolver handlers (plain or generator) that resolve "
-            "the plain futures, possibly twice, before / at / after the wait instant. Non-trivial = at least one process was resumed "
+            "the plain futures, possibly twice, before / at / after the wait instant, with values of every kind (ints incl. 0, None, False, "
+            "'', 0.0, empty containers, exception instances and classes used as plain values, tuples, lists: the process writes down what "
+            "the yield expression gave it or that it raised); completion hooks added to a waiter's triggering event by the waiter itself "
+            "while in flight and by other entities before its delivery / while it is parked or sleeping / after it finished. Non-trivial = at least one process was resumed "
             "by a future; distinct = distinct log")
     trusted_base = C01.trusted_base + ["each future slot is bound at most once per run (no rebinding), each future is awaited by at most one process at a time"]
     assumptions = C01.assumptions + [
